@@ -9,6 +9,12 @@ known = []
 for d in sorted(glob.glob("/verif/seeded/%s-*" % pid)):
     try:
         m = json.load(open(d + "/meta.json"))
+        if mode == "harmless":
+            if m.get("kind") == "harmless" or "-H" in d:
+                known.append("- %s" % (m.get("what_changed") or "")[:300].replace("\n", " "))
+            continue
+        if "-H" in os.path.basename(d):
+            continue
         known.append("- %s" % (m.get("what_it_needs_to_manifest") or m.get("clause_broken") or "")[:260].replace("\n", " "))
     except Exception:
         pass
@@ -51,7 +57,8 @@ For each change deliver, in {wt}/.rt_out/A/ and {wt}/.rt_out/B/:
 Verify all of it yourself: clean tree -> demo passes, suite passes; apply A -> demo fails, suite still passes; `git checkout -- .`; same for B. Leave the worktree clean (no modified tracked files) at the end; the .rt_out and .rt_tmp directories stay. In your final message list for A and B: the diff in a few lines, the failing input, and the exact commands you ran with their outcomes."""
 else:
     body = f"""
-YOUR TASK: produce TWO different, independent HARMLESS rewrites (call them A and B) of the code this property is anchored in: each must change the source substantially (a different algorithm or data structure, a vectorised/loop version, reordered independent statements, renamed locals/helpers, extracted or inlined functions, a different but equivalent library call, different tie-breaking where the property leaves it free) while the property STILL HOLDS for every input/history it quantifies over, the public function names/signatures used by the rest of the project stay the same, and the existing test suite still passes. Think of what a maintainer would do in a performance or readability refactor. Do NOT change documented observable behaviour that the property pins down (values, which rows/pairs/fields are produced, file contents named by the property); anything the property leaves open (ordering of equal scores, iteration order, internal representation, log messages, timing) may change. A should be a rewrite of the core computation, B a restructuring of the surrounding glue (argument handling, loops over batches/columns, how results are collected).
+YOUR TASK: produce TWO different, independent HARMLESS rewrites (call them A and B) of the code this property is anchored in: each must change the source substantially (a different algorithm or data structure, a vectorised/loop version, reordered independent statements, renamed locals/helpers, extracted or inlined functions, a different but equivalent library call, different tie-breaking where the property leaves it free) while the property STILL HOLDS for every input/history it quantifies over, the public function names/signatures used by the rest of the project stay the same, and the existing test suite still passes. Think of what a maintainer would do in a performance or readability refactor. Do NOT change documented observable behaviour that the property pins down (values, which rows/pairs/fields are produced, file contents named by the property); anything the property leaves open (ordering of equal scores, iteration order, internal representation, log messages, timing) may change. A should be a rewrite of the core computation, B a restructuring of the surrounding glue (argument handling, loops over batches/columns, how results are collected, helper functions extracted or inlined, module-level constants introduced, code moved between functions of the same module). Both must be DIFFERENT from these rewrites already made by others:
+{chr(10).join(known) if known else '- (none so far)'}
 
 For each rewrite deliver, in {wt}/.rt_out/A/ and {wt}/.rt_out/B/:
   - patch.diff : `git diff` of ONLY that rewrite against HEAD (apply-able with `git apply` on a clean checkout),
